@@ -1,6 +1,6 @@
 (* C12 — Receive Maximum flow control.  Statements only; proofs in Conn/IdsQuota.v.
    Nothing else may be added to this file. *)
-From MQ Require Import Base.Prelude Conn.Types Conn.ConnRecord Conn.Step Corr.ConnTrace Conn.IdsQuota Conn.Run Conn.Own Conn.OwnStep Conn.Witness.
+From MQ Require Import Base.Prelude Conn.Types Conn.ConnRecord Conn.Step Corr.ConnTrace Conn.IdsQuota Conn.Run Conn.Own Conn.OwnStep Conn.Witness Conn.PairQos Conn.PairQos5 Conn.PairSeq Conn.PairSeq5.
 
 (* the reported vacancy is M minus the count, saturating at zero: it never wraps or panics, for every
    M and every count *)
@@ -32,6 +32,19 @@ Theorem C12_refuse_publish_is_quiet : forall c id err pre c' e,
   sends e = sends pre /\ In (EError err) e /\ c_send_count c' = c_send_count c /\ c_send_max c' = c_send_max c.
 Proof. exact refuse_publish_is_quiet. Qed.
 Print Assumptions C12_refuse_publish_is_quiet.
+
+(* "returns to M when all exchanges complete", for every sequential run of two v5.0 endpoints (PairSeq5): whatever list of
+   QoS 1/2 messages is exchanged from a pair of states satisfying the pair invariant, the run does not fail and ends in
+   the pair invariant, in which the sender's vacancy is the full Receive Maximum and the receiver has nothing outstanding *)
+Theorem C12_vacancy_returns_after_sequence : forall gs gr ps cs cr,
+  pair_inv5 gs gr cs cr -> Forall (fun p => v5_pub p 1 \/ v5_pub p 2) ps ->
+  match run_seq5 gs gr cs cr ps with
+  | Done cs' cr' d => vacancy cs' = c_send_max cs' /\ c_publish_recv cr' = []
+  | AppPre => True
+  | Fail => False
+  end.
+Proof. exact vacancy_returns_after_sequence. Qed.
+Print Assumptions C12_vacancy_returns_after_sequence.
 
 (* C12_partial: the invariant "publish_send_count = number of incomplete outbound QoS>0 exchanges of
    this connection, including retransmitted stored ones" over all histories is checked by the monitor
